@@ -81,4 +81,31 @@ instance (H : Hierarchy) : Decidable (OverrideVisible H) := by
   unfold OverrideVisible
   infer_instance
 
+/-- two facts of the C3 linearisation: no class occurs twice, and the MRO of
+    every base is a subsequence of the MRO of the class (monotonicity) -/
+def MroMonotone (H : Hierarchy) : Prop :=
+  ∀ c < H.classes.length, (H.cls c).mro.Nodup ∧
+    ∀ b ∈ origBases H c, (H.cls b.cls).mro.Sublist (H.cls c).mro
+
+instance (H : Hierarchy) : Decidable (MroMonotone H) := by
+  unfold MroMonotone
+  infer_instance
+
+def BasesAgree (H : Hierarchy) (c : Nat) (k : Key) : Prop :=
+  ∀ b₁ ∈ origBases H c, ∀ b₂ ∈ origBases H c,
+    k ∈ fieldKeys H b₁.cls → k ∈ fieldKeys H b₂.cls → definer H b₁.cls k = definer H b₂.cls k
+
+instance (H : Hierarchy) (c : Nat) (k : Key) : Decidable (BasesAgree H c k) := by
+  unfold BasesAgree
+  infer_instance
+
+/-- all bases that have a field get it from the same class body (true for
+    single inheritance and for diamonds that merely share an ancestor) -/
+def NoConflict (H : Hierarchy) : Prop :=
+  ∀ c < H.classes.length, ∀ k ∈ fieldKeys H c, BasesAgree H c k
+
+instance (H : Hierarchy) : Decidable (NoConflict H) := by
+  unfold NoConflict
+  infer_instance
+
 end Adaptix.Generic
